@@ -54,7 +54,8 @@ class HashGlobalVar(Expression):
             self.ebpf.call(FuncId.map_lookup_elem)
             with self.ebpf.r0 == 0:
                 self.ebpf.exit()
-            if dst != 0 and force:
+            if dst != 0:
+                # r0 may be restored when the saved registers come back
                 self.ebpf.append(Opcode.MOV + Opcode.LONG + Opcode.REG, dst,
                                  0, 0, 0)
             else:
